@@ -41,6 +41,7 @@ func genProc(r *rand.Rand) procCfg {
 		NumCPU:   []int{1, 2, 3, 4, 8, 16}[r.IntN(6)],
 	}
 	pc.CondAny = r.IntN(4) == 0
+	pc.UnlockY = r.IntN(4) == 0
 	pc.ReadDirPerm = r.IntN(4) == 0
 	pc.SplitWrites = r.IntN(4) == 0
 	return pc
